@@ -3,6 +3,7 @@ import hashlib, json, os, subprocess, sys, time, traceback
 import z3
 from .core import *
 from . import stdlib
+from . import grpcmodel
 
 VERIF = os.path.dirname(os.path.dirname(os.path.abspath(__file__)))
 REPO = os.environ.get('VERIF_REPO', '/repo')
@@ -12,7 +13,7 @@ GOENV = dict(os.environ, PATH='/opt/veriftools/go1.26.8/bin:' + os.environ.get('
              GOFLAGS='-mod=mod', GOPROXY='off', GOSUMDB='off')
 
 ROOTS = './actions,./services,./filter,./faults,./internal/sqltypes,./parse,./grpc,./ent,./ent/schema'
-FOLLOW = ['go.6river.tech/mmmbbb/']
+FOLLOW = ['go.6river.tech/mmmbbb/', 'google.golang.org/protobuf/types/known/durationpb.', 'google.golang.org/protobuf/types/known/timestamppb.']
 
 
 def repo_hash():
@@ -118,6 +119,8 @@ class Check:
             setup(xp)
         if merge:
             xp.merge_funcs |= set(merge)
+        import multiprocessing as _mp
+        ob.replay_budget = _mp.Value('i', int(os.environ.get('VERIF_REPLAY_BUDGET', '6')))
         ob.xp = xp
         if pre_run:
             pre_run(ob)
@@ -341,8 +344,12 @@ class Obligation:
         m = ex.solver.model()
         small = ex.env.get('small_model')
         if small:
-            # prefer a counterexample with small payloads so that it can be replayed
-            if ex.solver.check(zbool(neg), *small) == z3.sat:
+            # prefer a counterexample that can be replayed: small payloads, no knife-edge instants
+            margins = ex.env.get('replay_margins')
+            extra = margins(ex) if margins else []
+            if extra and ex.solver.check(zbool(neg), *(small + extra)) == z3.sat:
+                m = ex.solver.model()
+            elif ex.solver.check(zbool(neg), *small) == z3.sat:
                 m = ex.solver.model()
             else:
                 self.inconclusive.append('counterexample for %s needs a payload too large to replay' % label)
@@ -365,6 +372,13 @@ class Obligation:
         path = None
         reproduced = None
         if replay is not None:
+            with self.replay_budget.get_lock():
+                left = self.replay_budget.value
+                self.replay_budget.value -= 1
+            if left <= 0:
+                if left == 0:
+                    self.inconclusive.append('further solver counterexamples of this obligation were not replayed (replay budget used up)')
+                return False
             try:
                 reproduced, path = replay(m, desc)
                 self.chk.replayed += 1
